@@ -123,6 +123,12 @@ def run_symmetry(sd):
         res["in"] = str(o)
     for perms, f in sym.items():
         res["reported"] += 1
+        # a permutation acts on index *assignments*: it must exchange indices with the same
+        # range (space and spin), otherwise it cannot be applied to an assignment at all
+        for p_, q_ in perms:
+            if p_.space != q_.space or p_.spin != q_.spin:
+                res.setdefault("det", []).append(
+                    f"reported transposition P_{{{p_}{q_}}} exchanges indices of different space / spin")
         B = f * apply_perms(term, perms)
         tgt = target
         if mode == "all":
